@@ -323,10 +323,10 @@ def _subst_check(family, kind, body, lines, use_line, acc, extra_tags=None):
         acc.sample({"macro_lines": lines, "expected": want})
 
 
-def subfamilies(acc: Acc):
+def subfamily_cases():
     # two uses of a function-like macro on one line; empty body; redefinition after
     # #undef with a use in between; nested macro references
-    cases = [
+    return [
         ("two_uses_one_line", "function1", "x+1", ["#define MAC(x) x+1", "q = MAC(a1) + MAC(b2)"], 1),
         ("two_uses_one_line", "object", "7", ["#define MAC 7", "q = MAC + MAC"], 1),
         ("empty_body", "object", "", ["#define MAC", "q = MAC r"], 1),
@@ -337,8 +337,20 @@ def subfamilies(acc: Acc):
         ("inactive_define", "object", "1", ["#if 0", "#define MAC 1", "#endif", "q = MAC"], 3),
         ("name_is_substring", "object", "9", ["#define MAC 9", "q = MACRO + XMAC + MAC_1"], 1),
         ("nested_parens_arg", "function1", "x*2", ["#define MAC(x) x*2", "q = MAC(f(a, b))"], 1),
+        # a body that mentions another macro, in both orders of definition, object- and function-like
+        ("chain_defined_later", "object", "OTHER", ["#define MAC OTHER", "#define OTHER real(8)", "MAC :: q"], 2),
+        ("chain_defined_earlier", "object", "OTHER", ["#define OTHER real(8)", "#define MAC OTHER", "MAC :: q"], 2),
+        ("chain_function_later", "function1", "OTHER :: x", ["#define MAC(x) OTHER :: x", "#define OTHER integer(4)", "MAC(q)"], 2),
+        ("chain_function_earlier", "function1", "OTHER :: x", ["#define OTHER integer(4)", "#define MAC(x) OTHER :: x", "MAC(q)"], 2),
+        ("chain_three", "object", "MID", ["#define LAST 3", "#define MID LAST", "#define MAC MID", "q = MAC + LAST"], 3),
+        ("argument_is_macro", "function1", "x+1", ["#define OTHER 5", "#define MAC(x) x+1", "q = MAC(OTHER)"], 2),
+        ("zero_parameters", "function0", "7", ["#define MAC() 7", "q = MAC() + MAC ( )"], 1),
+        ("zero_parameters_word_body", "function0", "seven", ["#define MAC() seven", "q = MAC()"], 1),
     ]
-    for fam, kind, body, lines, use in cases:
+
+
+def subfamilies(acc: Acc):
+    for fam, kind, body, lines, use in subfamily_cases():
         _subst_check("substitution_" + fam, kind, body, lines, use, acc)
 
 
